@@ -60,7 +60,7 @@ theorem parseInt_spec (t : Token) (eof : Token) (ts : List Token) :
     (absInt t.value = none ∧
       ((∃ k tk, parseInt t eof ts = .err k tk) ∨ ∃ n, parseInt t eof ts = .exc n)) := by
   unfold parseInt absInt
-  cases pyInt t.value with
+  cases pyInt (intLiteral t.value) with
   | none => exact Or.inr ⟨rfl, Or.inr ⟨_, rfl⟩⟩
   | some o =>
     cases o with
@@ -71,16 +71,20 @@ theorem parseNumber_spec (t : Token) (eof : Token) (ts : List Token) :
     (∃ v : Int, absNum t.value = some v.toNat ∧ parseNumber t eof ts = .ok v ts) ∨
     (absNum t.value = none ∧
       ((∃ k tk, parseNumber t eof ts = .err k tk) ∨ ∃ n, parseNumber t eof ts = .exc n)) := by
-  unfold parseNumber parseInt absNum
-  cases pyInt t.value with
-  | none => exact Or.inr ⟨rfl, Or.inr ⟨_, rfl⟩⟩
-  | some o =>
-    cases o with
-    | none => exact Or.inr ⟨rfl, Or.inl ⟨_, _, rfl⟩⟩
-    | some v =>
-      by_cases hv : v > MAX_REPEAT
-      · exact Or.inr ⟨by simp [hv], Or.inl ⟨.numberOverflow, t, by simp [hv, fail]⟩⟩
-      · exact Or.inl ⟨v, by simp [hv], by simp [hv]⟩
+  unfold parseNumber absNum
+  by_cases hl : (stripZeros t.value).length > 10
+  · simp only [hl, if_true]
+    exact Or.inr ⟨trivial, Or.inl ⟨.numberOverflow, t, rfl⟩⟩
+  · simp only [hl, if_false]
+    cases pyInt (stripZeros t.value) with
+    | none => exact Or.inr ⟨rfl, Or.inr ⟨_, rfl⟩⟩
+    | some o =>
+      cases o with
+      | none => exact Or.inr ⟨rfl, Or.inr ⟨_, rfl⟩⟩
+      | some v =>
+        by_cases hv : v > MAX_REPEAT
+        · exact Or.inr ⟨by simp [hv], Or.inl ⟨.numberOverflow, t, by simp [hv, fail]⟩⟩
+        · exact Or.inl ⟨v, by simp [hv], by simp [hv]⟩
 
 /-! ### postfix operators -/
 
